@@ -682,7 +682,10 @@ class XInterp(Interp):
             how, base = base.how, base.base
         spec = self.parse_spec(target.slice, st, frame)
         if isinstance(base, Buf):
-            base.stores.append(StoreRec(spec, val, st.loops, st.atoms, target, how))
+            dup = [x for x in base.stores if x.node is target and [id(l.node) for l in x.loops] == [id(l.node) for l in st.loops]
+                   and x.spec == tuple(spec) and _veq(x.value, val)]
+            if not dup:
+                base.stores.append(StoreRec(spec, val, st.loops, st.atoms, target, how))
         self.record("store", target, base, spec, val, st, frame, how)
 
     # ------------------------------------------------------------ expressions
@@ -1025,7 +1028,10 @@ class XInterp(Interp):
             meth = call.func.attr
             if isinstance(recv, AccList):
                 if meth == "append" and len(args) == 1:
-                    recv.appends.append((args[0], list(st.loops), dict(st.atoms), call))
+                    dup = [x for x in recv.appends if x[3] is call and [id(l.node) for l in x[1]] == [id(l.node) for l in st.loops]
+                           and _veq(x[0], args[0])]
+                    if not dup:
+                        recv.appends.append((args[0], list(st.loops), dict(st.atoms), call))
                     self.record("append", call, recv, None, args[0], st, frame)
                     return K(None)
                 if meth == "extend" and len(args) == 1 and isinstance(args[0], EVec):
@@ -1104,6 +1110,13 @@ def as_listv(v):
         if len(own) == 1 and own[0].var is not None:
             return ListV(val, own[0].var, own[0].it, node)
     return v
+
+
+def _veq(a, b):
+    try:
+        return a is b or a == b
+    except Exception:
+        return False
 
 
 def _one_sym(lin):
